@@ -282,6 +282,8 @@ func (s *sshSimulatorService) Handle(ctx context.Context, conn net.Conn) error {
 				}
 			}()
 
+			shell := false
+
 			for req := range requests {
 				log.Debugf("Request: %s %s %s %s\n", channel, req.Type, req.WantReply, req.Payload)
 
@@ -370,8 +372,10 @@ func (s *sshSimulatorService) Handle(ctx context.Context, conn net.Conn) error {
 					options...,
 				))
 
-				func() {
-					if req.Type == "shell" {
+				reqType := req.Type
+
+				serve := func() {
+					if reqType == "shell" {
 						defer channel.Close()
 
 						// should only be started in req.Type == shell
@@ -414,7 +418,7 @@ func (s *sshSimulatorService) Handle(ctx context.Context, conn net.Conn) error {
 
 							term.Write([]byte(fmt.Sprintf("%s: command not found\n", line)))
 						}
-					} else if req.Type == "exec" {
+					} else if reqType == "exec" {
 						defer channel.Close()
 
 						channel.Write([]byte(fmt.Sprintf("%s: command not found\n", "ls")))
@@ -422,7 +426,30 @@ func (s *sshSimulatorService) Handle(ctx context.Context, conn net.Conn) error {
 						return
 					} else {
 					}
-				}()
+				}
+
+				if reqType != "shell" {
+					serve()
+				} else if !shell {
+					// the shell reads the channel's data until the client is
+					// done with it, while requests for the channel keep
+					// coming (a window-change per resize): served inline, the
+					// seventeenth unread request blocked the connection's
+					// packet loop - no further keystroke arrived and the
+					// client's disconnect was never noticed
+					shell = true
+
+					go func() {
+						defer func() {
+							if r := recover(); r != nil {
+								log.Errorf("Error serving ssh shell: %+v", r)
+								sconn.Close()
+							}
+						}()
+
+						serve()
+					}()
+				}
 			}
 		}()
 	}
